@@ -37,6 +37,9 @@ gen_build_files() {
       printf '"%s":"%s"' "$f" "$d/stub_test.go"
     done
     for f in "$VERIF_DIR"/harness/*.go; do
+      if [ -n "${ONLY_MODULES:-}" ]; then
+        case " $ONLY_MODULES " in *" $(basename "$f" .go) "*) ;; *) continue;; esac
+      fi
       [ $first = 1 ] || printf ','
       first=0
       printf '"%s/zz_verif_%s_test.go":"%s"' "$REPO" "$(basename "$f" .go)" "$f"
@@ -53,6 +56,21 @@ build() { # $1 = output binary, $2 = "race" or ""
   [ "$race" = race ] && flags+=(-race)
   (cd "$REPO" && go test "${flags[@]}" .) > "$bd/build.log" 2>&1
   local rc=$?
+  if [ $rc -ne 0 ] && [ -z "${ONLY_MODULES:-}" ] && [ "$PROP" != build ]; then
+    # another module (possibly under construction) does not compile: retry with the core files plus the module(s)
+    # that register this check. When everything compiles this path is never taken.
+    echo "NOTE: full harness build failed; retrying with the core + the module of $PROP only" >&2
+    grep -E '^\./zz_verif|^zz_verif|error' "$bd/build.log" | head -5 >&2
+    ONLY_MODULES="main verdict ctl util racepass"
+    for f in $(grep -l "verifChecks\[\"$PROP\"\]" "$VERIF_DIR"/harness/*.go); do
+      ONLY_MODULES="$ONLY_MODULES $(basename "$f" .go)"
+      if grep -q '\braw[A-Z]' "$f" && [ -e "$VERIF_DIR/harness/rawpeer.go" ]; then ONLY_MODULES="$ONLY_MODULES rawpeer"; fi
+    done
+    gen_build_files "$bd"
+    (cd "$REPO" && go test "${flags[@]}" .) > "$bd/build.log" 2>&1
+    rc=$?
+    ONLY_MODULES=""
+  fi
   if [ $rc -ne 0 ]; then
     echo "BUILD-FAILED (harness does not compile against $REPO):" >&2
     tail -40 "$bd/build.log" >&2
